@@ -237,7 +237,9 @@ def arburg(X, order, criteria=None):
 
         # calculate the next order reflection coefficient Eq 8.14 Marple
         num = sum([ef[j]*eb[j-1].conjugate() for j in range(k+1, N)])
-        den = temp * den - abs(ef[k])**2 - abs(eb[N-1])**2
+        # (summed directly: the order update (1-|k|^2)*den - |ef[k]|^2 - |eb[N-1]|^2 of
+        # Marple's Eq. 8.10 loses all accuracy when |k| is close to one)
+        den = sum([abs(ef[j])**2 + abs(eb[j-1])**2 for j in range(k+1, N)])
         kp = -2. * num / den #eq 8.14
 
         temp = 1. - abs(kp)**2.
